@@ -76,6 +76,35 @@ def ranges(sk, *xs):
     return True
 
 
+def ranges2(sk, lo, hi, *xs):
+    """upper-rank fiber whose payloads are sub-fibers: a zero-length or all-default sub-fiber counts as empty and is not enumerated"""
+    tree, mode = sk["tree"], sk["mode"]
+    f, pos, _ = build_tree(tree, xs)
+    snap = raw(f)
+    pres = []
+    for i, sub in enumerate(f.payloads):
+        if any(pv(p) != 0 for p in sub.payloads):
+            pres.append(i)
+    if mode == "occupancy":
+        got = [(c, p) for c, p in f.iterOccupancy()]
+        idx = pres
+    elif mode == "iter":
+        got = [(c, p) for c, p in f]
+        idx = pres
+    elif mode == "range":
+        got = [(c, p) for c, p in f.iterRange(lo, hi)]
+        idx = [i for i in pres if lo <= f.coords[i] < hi]
+    elif mode == "project":
+        got = [(c - lo, p) for c, p in f.project(lambda c: c + lo)]
+        idx = pres
+    elif mode == "prune":
+        got = [(c, p) for c, p in f.prune(lambda i, c, p: True)]
+        idx = pres
+    if not _same_elems(got, f, idx):
+        return fail("%s over a fiber of sub-fibers yielded the wrong elements (empty sub-fibers must be skipped)" % mode)
+    return raw(f) == snap or fail("traversal changed the tree")
+
+
 def shapes(sk, lo, span, *xs):
     """dense traversals: every coordinate of the range, default for absent; Ref variants insert exactly the visited absent ones"""
     cs, vs, rest = _mk(sk, xs)
@@ -327,6 +356,11 @@ def obligations(tier):
                 obs.append(Ob("project/%d/%s/%s" % (n, "inc" if sign > 0 else "dec", "interval" if iv else "all"), "project",
                               dict(n=n, sign=sign, interval=iv), ["o", "lo", "span"] + base, pre + ["0 <= span"]))
         obs.append(Ob("prune/%d" % n, "prune", dict(n=n), ["th"] + base, pre))
+    for tree in ([[1, 0], [1, 1], [0, 2]] if q else [[1, 0], [1, 1], [0, 2], [2, 1], [1, 0, 1]]):
+        ps = names("x", tree_params(tree))
+        pre, _, _ = tree_pre(tree, ps)
+        for mode in ("occupancy", "iter", "range", "project", "prune"):
+            obs.append(Ob("ranges2/%s/%s" % (mode, str(tree).replace(" ", "")), "ranges2", dict(tree=tree, mode=mode), ["lo", "hi"] + ps, pre))
     for na, nb in ([(1, 1), (2, 1), (2, 2)] if q else [(1, 1), (2, 1), (2, 2), (3, 2)]):
         an, bn = names("a", na), names("b", nb)
         base = an + names("u", na) + bn + names("w", nb)
